@@ -98,7 +98,7 @@ class LayoutBuilder(object):
         from akext import forth
         if not isinstance(vm, forth.ForthMachine32):
             raise _badarg("connect", vm, "awkward._ext.ForthMachine32")
-        _lib.rc(_lib.L.akp_lb_connect(self._h, vm._h))
+        _lib.rc(_lib.L.akp_lb_connect(self._h, _lib.L.akp_forth_sharedptr32(vm._h)))
 
     def form(self):
         return _forms.share(_lib.ptr(_lib.L.akp_lb_form(self._h)))
